@@ -87,12 +87,18 @@ static
  */
 EXPORT constraint_handler_t
 set_mem_constraint_handler_s(constraint_handler_t handler) {
-    constraint_handler_t prev_handler = mem_handler;
+    constraint_handler_t prev_handler;
     if (NULL == handler) {
-        mem_handler = sl_default_handler;
-    } else {
-        mem_handler = handler;
+        handler = sl_default_handler;
     }
+#if defined(__GNUC__) && !defined(__KERNEL__)
+    /* one atomic exchange: concurrent registrations each get the handler
+       they replaced */
+    prev_handler = __atomic_exchange_n(&mem_handler, handler, __ATOMIC_SEQ_CST);
+#else
+    prev_handler = mem_handler;
+    mem_handler = handler;
+#endif
     return prev_handler;
 }
 #ifdef __KERNEL__
